@@ -453,16 +453,18 @@ def bracket_invariant(repo, run):
 
 
 # ------------------------------------------------------------------------------------------------
-def product_sign_tests(repo, run, rule_id="C14.7", funcs=("brentsroot", "brentsrootvec")):
+def product_sign_tests(repo, run, rule_id="C14.7", funcs=("brentsroot", "brentsrootvec"), floor=2):
     """'whatever the scale': whether two function values have opposite signs must be decided from their signs.  The sign of the floating-point PRODUCT
     f(a)*f(b) is not that: for |f(a) f(b)| below the smallest subnormal it is 0, so 'same sign' passes `product > 0`-rejection and `product <= 0` success,
     and a genuine sign change fails `product < 0` (the bracket update then moves the wrong end)."""
     rid = run.rule(rule_id, "every sign test on two function values compares signs (sign(f1)*sign(f2), or separate comparisons with zero), never the product of the "
-                            "values themselves with zero: a product of small values underflows to zero and the test then answers for a root that is not there", floor=2)
+                            "values themselves with zero: a product of small values underflows to zero and the test then answers for a root that is not there", floor=floor)
     n = 0
+    from ..sym import inline_locals
     for q in funcs:
         fn = repo.get(OPT, q)
         ke = KindEngine(fn, brent_seeds(), disciplines=("DIM",))
+        env = inline_locals(fn)
         for cmp_ in [x for x in ast.walk(fn) if isinstance(x, ast.Compare) and len(x.ops) == 1]:
             l, r = cmp_.left, cmp_.comparators[0]
             for prod, other in ((l, r), (r, l)):
@@ -470,6 +472,8 @@ def product_sign_tests(repo, run, rule_id="C14.7", funcs=("brentsroot", "brentsr
                     zero = const_value(other) == 0
                 except ValueError:
                     zero = False
+                if zero and isinstance(prod, ast.Name) and prod.id in env:
+                    prod = env[prod.id]         # a product computed once into a local and tested several times
                 if not zero or not (isinstance(prod, ast.BinOp) and isinstance(prod.op, ast.Mult)):
                     continue
                 kl, kr = ke.kind(prod.left), ke.kind(prod.right)
